@@ -17,8 +17,8 @@ class LogModel(Model):
 class S(System):
     __slots__ = ['acts']
 
-    def __init__(self, id, model, priority=0):
-        super().__init__(id, model, priority=priority)
+    def __init__(self, id, model, priority=0, frequency=1):
+        super().__init__(id, model, priority=priority, frequency=frequency)
         self.acts = []
 
     def execute(self):
@@ -29,9 +29,9 @@ class S(System):
                 act()
 
 
-def _queue(m, ps):
+def _queue(m, ps, frequency=1):
     """I1 pre-state built through the API (registration order = index order)."""
-    ss = [S("s%d" % i, m, ps[i]) for i in range(len(ps))]
+    ss = [S("s%d" % i, m, ps[i], frequency) for i in range(len(ps))]
     for s in ss:
         m.systems.add_system(s)
     return ss
@@ -47,11 +47,15 @@ def midstep(p0: int, p1: int, p2: int, p3: int, actor: int, target: int, pn: int
     hx.begin()
     n, kinds = hx.P['n'], hx.P['kinds']       # kinds: one or two of 'self' | 'remove' | 'add'
     m = LogModel()
-    ss = _queue(m, [p0, p1, p2, p3][:n])
+    # 'sparse': the systems present at the start only run every other timestep, so in the timestep after the action only
+    # systems registered mid-timestep are due
+    sparse = hx.P.get('sparse', False)
+    ss = _queue(m, [p0, p1, p2, p3][:n], 2 if sparse else 1)
     before = list(m.systems.execution_queue)
     removed = []            # (system, position of the remover in `before`)
     added = []
     readded = []
+    regseq = list(ss)       # the systems registered right now, in the order of their (latest) registration
 
     def mk(kind, who, tgt, prio, tag):
         def act():
@@ -59,27 +63,34 @@ def midstep(p0: int, p1: int, p2: int, p3: int, actor: int, target: int, pn: int
                 if m.systems.systems.get(who.id) is who:       # (a second self-removal by the same system is a no-op)
                     who.clean_up()
                     removed.append(who)
+                    regseq.remove(who)
             elif kind == 'remove':
                 if m.systems.systems.get(tgt.id) is tgt:
                     m.systems.remove_system(tgt.id)
                     removed.append(tgt)
+                    regseq.remove(tgt)
             elif kind == 'readd':                   # remove a system and register THE SAME object again, with a new priority
                 if m.systems.systems.get(tgt.id) is tgt:
                     m.systems.remove_system(tgt.id)
                     tgt.priority = prio
                     m.systems.add_system(tgt)
                     readded.append(tgt)
+                    regseq.remove(tgt)
+                    regseq.append(tgt)
             elif kind == 'replace':                 # remove a system and register a DIFFERENT object under the same id
                 if m.systems.systems.get(tgt.id) is tgt:
                     m.systems.remove_system(tgt.id)
                     removed.append(tgt)
+                    regseq.remove(tgt)
                     new = S(tgt.id, m, prio)
                     m.systems.add_system(new)
                     added.append(new)
+                    regseq.append(new)
             else:
                 new = S("new" + tag, m, prio)
                 m.systems.add_system(new)
                 added.append(new)
+                regseq.append(new)
         return act
 
     a1, t1 = hx.pick(ss, actor), hx.pick(ss, target)
@@ -151,16 +162,25 @@ def midstep(p0: int, p1: int, p2: int, p3: int, actor: int, target: int, pn: int
     if not multi:
         m.execute()
         log_second = list(m.log[cut:])
-    if not hx.same_seq(log_second, m.systems.execution_queue):
+    due = [x for x in m.systems.execution_queue if (1 - x.start) % x.frequency == 0]
+    if not hx.same_seq(log_second, due):
         return hx.end(hx.fail("next timestep is not a plain run of the queue", log=names(log_second),
                               queue=names(m.systems.execution_queue), one_call=multi))
-    want = [s for s in before if s not in removed] + list(added)
+    want = [s for s in before if s not in removed and not sparse] + list(added)
     if len(log_second) != len(want) or not all(any(x is y for y in log_second) for x in want):
         return hx.end(hx.fail("next timestep ran a different set of systems", log=names(log_second), exp=names(want)))
     q = m.systems.execution_queue
     for i in range(len(q) - 1):
         if q[i].priority < q[i + 1].priority:
             return hx.end(hx.fail("queue not in priority order afterwards"))
+    # (C01) ... and among equal priorities in the order of registration, also for systems registered mid-timestep
+    for i in range(len(log_second)):
+        for j2 in range(i + 1, len(log_second)):
+            a, b = log_second[i], log_second[j2]
+            if a.priority == b.priority and a in regseq and b in regseq and regseq.index(a) > regseq.index(b):
+                return hx.end(hx.fail("equal-priority systems ran against their registration order in the next timestep",
+                                      log=names(log_second), registered=names(regseq),
+                                      priorities=[x.priority for x in log_second]))
     return hx.end(m.timestep == 2)
 
 
@@ -180,6 +200,7 @@ def obligations(tier):
     parts += [{"n": n, "kinds": [a, b]} for n in ((2,) if tier == "quick" else (2, 3)) for a, b in two]
     parts += [{"n": 2, "kinds": [k], "multi": True} for k in ("self", "remove", "add", "replace")]
     parts += [{"n": 2, "kinds": [k], "other_model": True} for k in ("self", "remove", "replace")]
+    parts += [{"n": 2, "kinds": ks, "sparse": True} for ks in (["add"], ["replace"], ["add", "add"])]
     if tier != "quick":
         parts += [{"n": 3, "kinds": [a, b], "multi": True} for a, b in two] + [{"n": 3, "kinds": [a, b], "other_model": True} for a, b in two]
 
